@@ -6,6 +6,13 @@ ROOT = os.path.dirname(os.path.dirname(os.path.abspath(__file__)))
 
 # id -> (category, technique, level text, level note, design ref)
 CHECKS = {
+ "C11": ("exploration",
+   "model-based stateful testing (reserved-id model) with bounded-exhaustive short histories + proptest histories",
+   "Every history of 3 (quick) / 4 (thorough) packet ops over {PUBLISH QoS1/2, SUBSCRIBE, UNSUBSCRIBE, PUBREL} x ids {1,2} x gate placements, plus random histories over ids {1,2,3}, executed against "
+   "servers and clients of both versions in lock-step with a reserved-id model whose release points are read off the wire: in-use ids never reach a handler (v3: violation 2.2.1-3, v5: 0x91), "
+   "released ids are accepted again on every release path, PUBREL for a free id is refused (v3 ends, v5 PUBCOMP 0x92).",
+   "Trusted: as C03. Ambiguous instants (acknowledgement generated but not yet written; second control packet while one is in progress) are skipped and counted.",
+   "DESIGN.md section 3 C11"),
  "C03": ("exploration",
    "stateful proptest histories on an in-memory connection with a harness-owned schedule; per-packet-id exchange model",
    "Generated histories of 1..5 inbound publishes (QoS 0/1/2, payloads delivered in pieces so that they are streamed, random flags/properties), handler outcomes "
